@@ -334,6 +334,73 @@ def stage_delete_sweep(ctx: Ctx):
                                'src_after': after[0], 'source_equal': after[0] == before[0], 'dump_equal': after[1] == before[1]})
 
 
+OPT_PROGS = ['if x: a = 1\n', 'if a:\n    pass\nelif b:\n    pass\n', 'def f(): pass\n', 'class C: x = 1\n', 'while q: break\nelse: pass\n', 'try: pass\nfinally: pass\n',
+             'a = [1, 2]\nb = f(3, k=4)\n', 'for i in j: pass\nelse: pass\n', 'if a: pass\nelif b: pass\nelse: pass\n', 'with a: b; c\n', 'x = 1; y = 2\n',
+             'match v:\n    case 1: pass\n', 'try: pass\nexcept E: pass\nelse: pass\n']
+BAD_OPTIONS = [('pep8space', 2), ('pep8space', -1), ('pep8space', 3), ('pep8space', 'x'), ('trivia', 'everything'), ('trivia', ('all', 'all', 'all')), ('trivia', ('line', True)),
+               ('elif_', 'yes'), ('docstr', 1.5), ('norm', 'banana'), ('norm_self', 'banana'), ('raw', 2), ('pars', 'maybe'), ('coerce', None), ('op_side', 'middle'),
+               ('not_an_option', True), ('to', None)]
+RAW_BAD = ['1) + (', 'for', '(', ')', 'a b', '"unterminated', 'x = = 1', 'else: pass']
+
+
+def stage_option_sweep(ctx: Ctx):
+    """deterministic: every statement-level entry point (put_slice insert / replace / delete, put, replace, remove) on one-line and elif-chained blocks - the shapes
+    that are normalized BEFORE the edit is carried out - with every invalid option value; and raw edits with code that neither parses at statement level nor as
+    whole source. A call that raises must leave source, structure and positions exactly as they were."""
+    import fst
+    from fst.fst_core import _MODIFYING
+    for src in OPT_PROGS:
+        probe = fst.FST(src, 'exec')
+        jobs = []
+        for f in probe.walk(True):
+            path = probe.child_path(f)
+            for fld in ('body', 'orelse', 'finalbody', 'handlers', 'cases'):
+                v = getattr(f.a, fld, None)
+                if isinstance(v, list) and v and isinstance(v[0], ast.AST):
+                    new = {'handlers': 'except Z: pass', 'cases': 'case 9: pass'}.get(fld, 'b = 2')
+                    for i in range(len(v) + 1):
+                        jobs.append((path, 'ins', fld, i, new))
+                    for i in range(len(v)):
+                        jobs += [(path, 'rep', fld, i, new), (path, 'del', fld, i, None), (path, 'put', fld, i, new)]
+            if isinstance(f.a, ast.stmt):
+                jobs += [(path, 'replace', None, None, 'b = 2'), (path, 'remove', None, None, None)]
+            if isinstance(f.a, ast.expr):
+                jobs.append((path, 'raw', None, None, None))
+        for path, how, fld, i, new in jobs:
+            variants = [{'raw': True, '_code': c} for c in RAW_BAD] if how == 'raw' else [{k: v} for k, v in BAD_OPTIONS]
+            for opts in variants:
+                root = fst.FST(src, 'exec')
+                f = root.child_from_path(path)
+                before = snapshot(root)
+                code = opts.pop('_code', new)
+                desc = {'src': src, 'node': repr(f), 'how': how, 'field': fld, 'idx': i, 'code': code, 'options': repr(opts)}
+                try:
+                    if how == 'ins':
+                        f.put_slice(code, i, i, fld, **opts)
+                    elif how == 'rep':
+                        f.put_slice(code, i, i + 1, fld, **opts)
+                    elif how == 'del':
+                        f.put_slice(None, i, i + 1, fld, **opts)
+                    elif how == 'put':
+                        f.put(code, i, fld, **opts)
+                    elif how == 'remove':
+                        f.remove(**opts)
+                    else:
+                        f.replace(code, **opts)
+                    continue
+                except Exception as e:
+                    err = e
+                ctx.tick(('optsweep', src, str(path), how, fld, i, repr(opts), code), 'fault:sweep:' + how)
+                if _MODIFYING:
+                    ctx.violation(f'lock|sweep-{how}|exc', 'modification registry not empty after the call raised', {**desc, 'error': repr(err)[:200]})
+                    _MODIFYING.clear()
+                after = snapshot(root)
+                if after != before:
+                    what = 'source changed' if after[0] != before[0] else 'tree positions/structure changed'
+                    ctx.violation(f'mutated|sweep-{how}|{type(err).__name__}|{what}', 'a raising edit did not leave the tree exactly as it was',
+                                  {**desc, 'error': repr(err)[:200], 'src_after': after[0], 'dump_equal': after[1] == before[1]})
+
+
 def run(ctx: Ctx):
     ctx.rule = ('fault sequences: histories mixing invalid requests (15 fault kinds: unparsable code, wrong category with coerce=False, index/slice out of '
                 'range, bad/unknown options, consumed or non-root FST as code, to= without raw, deletion of required fields, ordering violations) and '
@@ -348,6 +415,7 @@ def run(ctx: Ctx):
     progs = corpus(ctx.rng, gen=ctx.scale(20, 150))
     run_guarded(ctx, stage_faults, progs)
     run_guarded(ctx, stage_delete_sweep)
+    run_guarded(ctx, stage_option_sweep)
 
 
 def replay(path):
